@@ -3,13 +3,22 @@
    Totals are over any duplicate-free address list `dom` that contains the addresses an operation touches (every other
    account is left untouched: ledger_untouched). *)
 From Coq Require Import ZArith List Bool Lia.
-From Verif Require Import Ledger.Model Ledger.Proofs TxExec.Model TxExec.Proofs TxExec.ProofsBlock TxExec.ProofsAdopt BaseFee.Model BaseFee.Proofs.
+From Verif Require Import Ledger.Model Ledger.Proofs TxExec.Model TxExec.Proofs TxExec.ProofsEffects TxExec.ProofsBlock TxExec.ProofsAdopt BaseFee.Model BaseFee.Proofs.
 Import ListNotations.
 Open Scope Z_scope.
 
-(* ---------------------------------------------------------------- VET *)
-(* 1. every ledger primitive other than a self-destruct whose beneficiary is the contract itself preserves the total VET *)
-Theorem vet_conserved T S os l dom : NoDup dom ->
+(* ---------------------------------------------------------------- ledger primitives *)
+(* 0. EXACT totals along any list of ledger primitives (transfers, energy add / sub / move, self-destructs, reward distribution):
+      total VET falls by exactly what self-destructs to self destroy (`burned`), total VTHO at block time changes by adds - subs +
+      issued rewards minus what they destroy.  This is the full statement; 1-3 are its corollaries. *)
+Theorem ledger_totals_exact T S os l dom : NoDup dom -> (forall o, In o os -> covers dom o) ->
+  sum_bal dom (l_acc (apply_ops T S l os)) = sum_bal dom (l_acc l) - fst (burned T S l os) /\
+  sum_eng T S dom (l_acc (apply_ops T S l os)) = sum_eng T S dom (l_acc l) + energy_delta_ops T S l os - snd (burned T S l os).
+Proof. exact (ops_totals_exact T S os l dom). Qed.
+
+(* 1. (partial form of the property's first sentence: the restriction is exactly F5) every ledger primitive other than a
+      self-destruct whose beneficiary is the contract itself preserves the total VET *)
+Theorem vet_conserved_partial T S os l dom : NoDup dom ->
   (forall o, In o os -> covers dom o /\ self_destruct_to_self o = false) ->
   sum_bal dom (l_acc (apply_ops T S l os)) = sum_bal dom (l_acc l).
 Proof. exact (vet_conserved_ops T S os l dom). Qed.
@@ -35,68 +44,122 @@ Qed.
 Theorem ledger_untouched T S l o a : ~ In a (touches o) -> l_acc (apply_op T S l o) a = l_acc l a.
 Proof. exact (untouched_op T S l o a). Qed.
 
-(* ---------------------------------------------------------------- VTHO *)
-(* 3. total energy evaluated at the block time changes by exactly the adds minus the successful subs plus issued rewards *)
+(* 3. without self-destructs to self: total energy at block time changes by exactly adds - successful subs + issued rewards *)
 Theorem vtho_delta T S os l dom : NoDup dom ->
   (forall o, In o os -> covers dom o /\ self_destruct_to_self o = false) ->
   sum_eng T S dom (l_acc (apply_ops T S l os)) = sum_eng T S dom (l_acc l) + energy_delta_ops T S l os.
 Proof. exact (vtho_delta_ops T S os l dom). Qed.
 
+(* ---------------------------------------------------------------- transactions and blocks *)
 Section C08.
   Variables W O : Type.
-  Variable clause_result : nat -> Z -> state W -> cres W O.
+  Variable clause_result : env -> txn -> nat -> Z -> state W -> cres W O.
   Variable write_credit : Z -> Z -> Z -> W -> W.
 
-  (* 4. one transaction: total VTHO after = before + reward - paid, total VET unchanged, when its clauses move funds only
-        through neutral primitives (clauses_neutral: discharged for transfers / energy moves / self-destructs to another
-        account by theorems 1 and 3) *)
-  Theorem vtho_delta_tx e t ci st0 st rc dom :
-    let T := e_time e in let S := e_stop e in
-    clauses_neutral W O clause_result T S dom -> NoDup dom -> In (r_payer O rc) dom -> In (e_benef e) dom ->
-    exec_tx W O clause_result write_credit e t ci st0 = Done W O st rc ->
-    sum_eng T S dom (l_acc (fst st)) = sum_eng T S dom (l_acc (fst st0)) + r_reward O rc - r_paid O rc /\
-    sum_bal dom (l_acc (fst st)) = sum_bal dom (l_acc (fst st0)).
-  Proof. exact (vtho_delta_tx_lemma W O clause_result write_credit e t ci st0 st rc dom). Qed.
+  (* The EVM is an oracle, but what a clause does to funds is NOT assumed to conserve anything: a clause result lists the ledger
+     primitives the clause performed (cr_ops) and its effect on the ledger is apply_ops of that list (TxExec.Model.cres_state).
+     The only premise, clause_ops_ok dom: the primitives of a non-failing clause are transfers / energy moves / self-destructs
+     (clause_kind: not the fee operations, which belong to the wrapper) and touch only addresses of the finite set dom over which
+     the totals are taken.  This is what the harness checks on real code: every leaf's change is explained by the receipt's
+     transfers and energy events. *)
 
-  (* 5. a whole block (adopted txs, rejected ones reverted, staking reward when PoS is active):
-        total VTHO after = before + sum of rewards - sum of paid + staking reward; total VET unchanged *)
-  Theorem vtho_delta_block e dom txs st staking deleg used st' rcs :
+  (* 4. one transaction, EXACT: total VTHO after = before + reward - paid - VTHO burned by self-destructs to self; total VET
+        after = before - VET burned.  tx_burned is (0,0) when the transaction reverts (state restored). *)
+  Theorem tx_totals_exact e t ci st0 st rc dom :
     let T := e_time e in let S := e_stop e in
-    clauses_neutral W O clause_result T S dom -> NoDup dom -> In (e_benef e) dom -> In deleg dom ->
+    clause_ops_ok W O clause_result dom -> NoDup dom -> In (r_payer O rc) dom -> In (e_benef e) dom ->
+    exec_tx W O clause_result write_credit e t ci st0 = Done W O st rc ->
+    sum_eng T S dom (l_acc (fst st)) =
+      sum_eng T S dom (l_acc (fst st0)) + r_reward O rc - r_paid O rc - snd (tx_burned W O clause_result e t ci st0) /\
+    sum_bal dom (l_acc (fst st)) = sum_bal dom (l_acc (fst st0)) - fst (tx_burned W O clause_result e t ci st0).
+  Proof. exact (tx_totals_exact_lemma W O clause_result write_credit e t ci st0 st rc dom). Qed.
+
+  (* 5. a whole block (adopted txs, rejected ones reverted, staking reward when PoS is active), EXACT, F5 blocks included:
+        total VTHO after = before + sum of rewards - sum of paid + staking reward - burned; total VET after = before - burned,
+        burned = sum over the adopted transactions of what their self-destructs to self destroyed (flow_burned) *)
+  Theorem block_totals_exact e dom txs st staking deleg used st' rcs :
+    let T := e_time e in let S := e_stop e in
+    clause_ops_ok W O clause_result dom -> NoDup dom -> In (e_benef e) dom -> In deleg dom ->
     block_flow W O clause_result write_credit e txs st staking deleg = (used, st', rcs) ->
     Forall (fun rc => In (r_payer O rc) dom) rcs ->
     sum_eng T S dom (l_acc (fst st')) =
       sum_eng T S dom (l_acc (fst st)) + sum_reward O rcs - sum_paid O rcs
-      + (match staking with Some (reward, _, _, _) => reward | None => 0 end) /\
-    sum_bal dom (l_acc (fst st')) = sum_bal dom (l_acc (fst st)).
-  Proof. exact (vtho_delta_block_lemma W O clause_result write_credit e dom txs st staking deleg used st' rcs). Qed.
+      + (match staking with Some (reward, _, _, _) => reward | None => 0 end)
+      - snd (flow_burned W O clause_result write_credit e 0 txs st) /\
+    sum_bal dom (l_acc (fst st')) = sum_bal dom (l_acc (fst st)) - fst (flow_burned W O clause_result write_credit e 0 txs st).
+  Proof. exact (block_totals_exact_lemma W O clause_result write_credit e dom txs st staking deleg used st' rcs). Qed.
 
   (* 5a. the same for the packer's Adopt in full (all pre-checks, known-tx and dependency bookkeeping) *)
-  Theorem vtho_delta_flow_full e fe dom txs fs st fs' st' rcs :
+  Theorem flow_full_totals_exact e fe dom txs fs st fs' st' rcs :
     let T := e_time e in let S := e_stop e in
-    clauses_neutral W O clause_result T S dom -> NoDup dom -> In (e_benef e) dom ->
+    clause_ops_ok W O clause_result dom -> NoDup dom -> In (e_benef e) dom ->
     adopt_all_full W O clause_result write_credit e fe fs txs st [] = (fs', st', rcs) ->
     Forall (fun rc => In (r_payer O rc) dom) rcs ->
-    sum_eng T S dom (l_acc (fst st')) = sum_eng T S dom (l_acc (fst st)) + sum_reward O rcs - sum_paid O rcs /\
-    sum_bal dom (l_acc (fst st')) = sum_bal dom (l_acc (fst st)).
+    sum_eng T S dom (l_acc (fst st')) = sum_eng T S dom (l_acc (fst st)) + sum_reward O rcs - sum_paid O rcs
+                                        - snd (flow_full_burned W O clause_result write_credit e fe fs txs st) /\
+    sum_bal dom (l_acc (fst st')) = sum_bal dom (l_acc (fst st)) - fst (flow_full_burned W O clause_result write_credit e fe fs txs st).
   Proof.
     intros T S N ND HB H HP.
     destruct (adopt_all_full_totals W O clause_result write_credit e fe dom N ND HB txs fs st [] fs' st' rcs H HP) as [new [E [A B]]].
     cbn in E. subst new. split; assumption.
   Qed.
 
-  (* 5b. per account (dom = [a]) and over any address set: exactly the payer is charged gasUsed x price (= r_paid, C07 gas_bounds),
-         exactly the beneficiary receives the reward, nobody else's VTHO moves unless a clause moves it *)
+  (* 5c. the property's sentences as stated, for every block none of whose clauses self-destructs to itself: VET conserved, VTHO
+         changes by rewards - paid + staking reward *)
+  Theorem vtho_delta_block e dom txs st staking deleg used st' rcs :
+    let T := e_time e in let S := e_stop e in
+    clause_ops_ok W O clause_result dom -> no_self_destruct_to_self W O clause_result ->
+    NoDup dom -> In (e_benef e) dom -> In deleg dom ->
+    block_flow W O clause_result write_credit e txs st staking deleg = (used, st', rcs) ->
+    Forall (fun rc => In (r_payer O rc) dom) rcs ->
+    sum_eng T S dom (l_acc (fst st')) =
+      sum_eng T S dom (l_acc (fst st)) + sum_reward O rcs - sum_paid O rcs
+      + (match staking with Some (reward, _, _, _) => reward | None => 0 end) /\
+    sum_bal dom (l_acc (fst st')) = sum_bal dom (l_acc (fst st)).
+  Proof.
+    intros T S N NS ND HB HD H HP.
+    destruct (block_totals_exact_lemma W O clause_result write_credit e dom txs st staking deleg used st' rcs N ND HB HD H HP) as [A B].
+    rewrite (flow_burned_none W O clause_result write_credit NS) in A, B. cbn [fst snd] in A, B. fold T S in A. split; lia.
+  Qed.
+
+  Theorem vtho_delta_tx e t ci st0 st rc dom :
+    let T := e_time e in let S := e_stop e in
+    clause_ops_ok W O clause_result dom -> no_self_destruct_to_self W O clause_result ->
+    NoDup dom -> In (r_payer O rc) dom -> In (e_benef e) dom ->
+    exec_tx W O clause_result write_credit e t ci st0 = Done W O st rc ->
+    sum_eng T S dom (l_acc (fst st)) = sum_eng T S dom (l_acc (fst st0)) + r_reward O rc - r_paid O rc /\
+    sum_bal dom (l_acc (fst st)) = sum_bal dom (l_acc (fst st0)).
+  Proof.
+    intros T S N NS ND HP HB H.
+    destruct (tx_totals_exact_lemma W O clause_result write_credit e t ci st0 st rc dom N ND HP HB H) as [A B].
+    rewrite (tx_burned_none W O clause_result NS) in A, B. cbn [fst snd] in A, B. fold T S in A. split; lia.
+  Qed.
+
+  (* 5b. per account (dom = [a]) and over any address set no clause touches: exactly the payer is charged gasUsed x price (= r_paid,
+         C07 gas_bounds), exactly the beneficiary receives the reward, nobody else's VTHO moves *)
   Theorem energy_delta_any_set e t ci st0 st rc dom :
     let T := e_time e in let S := e_stop e in
-    clauses_neutral W O clause_result T S dom -> NoDup dom ->
+    clause_ops_avoid W O clause_result dom -> NoDup dom ->
     exec_tx W O clause_result write_credit e t ci st0 = Done W O st rc ->
     sum_eng T S dom (l_acc (fst st)) = sum_eng T S dom (l_acc (fst st0))
         + (if member (e_benef e) dom then r_reward O rc else 0) - (if member (r_payer O rc) dom then r_paid O rc else 0) /\
     sum_bal dom (l_acc (fst st)) = sum_bal dom (l_acc (fst st0)).
   Proof. exact (energy_delta_any_set_lemma W O clause_result write_credit e t ci st0 st rc dom). Qed.
 
-  (* 6. the payer is charged gasUsed x price (C07 gas_bounds) and the price is never below the block base fee *)
+  (* 6. the price is the effective price of the transaction (legacy: base price scaled by the coefficient; dynamic: min(maxFee,
+        maxPriority + baseFee)), never below the block base fee; the payer is the delegator if there is one, else the origin or —
+        with enough user credit on the common To — the To contract or its selected, still sponsoring sponsor *)
+  Theorem payer_and_price e t ci st0 st rc :
+    exec_tx W O clause_result write_credit e t ci st0 = Done W O st rc ->
+    r_price O rc = effective_price e t (match e_base_fee e with Some bf => bf | None => 0 end) /\
+    (match t_delegator t with
+     | Some d => r_payer O rc = d
+     | None => r_payer O rc = t_origin t \/
+               (exists to, common_to (t_clauses t) = Some to /\ t_gas t * r_price O rc <= k_credit ci /\
+                           (r_payer O rc = to \/ (k_is_sponsor ci = true /\ r_payer O rc = k_sponsor ci)))
+     end).
+  Proof. exact (payer_and_price_lemma W O clause_result write_credit e t ci st0 st rc). Qed.
+
   Theorem price_ge_basefee e t ci st0 st rc bf :
     exec_tx W O clause_result write_credit e t ci st0 = Done W O st rc -> e_base_fee e = Some bf -> bf <= r_price O rc.
   Proof. exact (price_ge_basefee_lemma W O clause_result write_credit e t ci st0 st rc bf). Qed.
@@ -129,6 +192,15 @@ Theorem basefee_none_before_fork galactica pnum gl gu pb :
   pnum + 1 < two32 -> 0 <= pnum -> pnum + 1 < galactica -> calc_base_fee galactica pnum gl gu pb = BfNone.
 Proof. exact (basefee_before_fork galactica pnum gl gu pb). Qed.
 
+(* 7c. the floor precondition of 7 / 7b is an invariant of the chain: along any run of post-fork headers whose base fees are
+       produced by the recurrence (the fork block carries initial_base_fee), every base fee is >= the floor *)
+Theorem basefee_chain_ge_floor galactica hs pnum pb :
+  0 <= galactica -> galactica < pnum + 1 -> pnum + Z.of_nat (length hs) < two32 ->
+  Forall (fun h => min_gas_limit <= fst h <= max_nowrap_gas_limit /\ 0 <= snd h <= fst h) hs ->
+  initial_base_fee <= pb ->
+  exists fs, chain_fees galactica pnum pb hs = Some fs /\ length fs = length hs /\ Forall (fun f => initial_base_fee <= f) fs.
+Proof. exact (basefee_chain_lemma galactica hs pnum pb). Qed.
+
 (* stated precondition, not a finding: above the no-wrap bound the 1/8 bound fails *)
 Theorem basefee_wrap_example :
   exists gl gu pb next, max_nowrap_gas_limit < gl < two64 /\ 0 <= gu <= gl /\ initial_base_fee <= pb /\
@@ -137,28 +209,78 @@ Proof. exact basefee_wrap_example_lemma. Qed.
 
 (* non-vacuity *)
 Example ex_basefee : calc_base_fee 1 5 40000000 40000000 10000000000000 = BfFee 10416666666666
-                     /\ min_gas_limit <= 40000000 <= max_nowrap_gas_limit.
-Proof. vm_compute. repeat split; discriminate. Qed.
+                     /\ min_gas_limit <= 40000000 <= max_nowrap_gas_limit
+                     /\ chain_fees 1 5 10000000000000 [(40000000, 40000000); (40000000, 0); (40000003, 30000002)]
+                        = Some [10416666666666; 10000000000000; 10000000000000].
+Proof. vm_compute. repeat split; try discriminate; reflexivity. Qed.
 Example ex_ledger_ops :
   let l := mkL (fun a => if a =? 1 then mkAcc 1000 500 50 else if a =? 2 then mkAcc 7 0 0 else empty_acc) 0 0 0 in
-  let os := [OTransfer 1 2 300; OEnergyMove 1 3 100; OSuicide 2 3; OEnergySub 1 50; OEnergyAdd 9 5] in
-  sum_bal [1;2;3;9] (l_acc (apply_ops 100 1000 l os)) = 1007 /\
-  sum_eng 100 1000 [1;2;3;9] (l_acc (apply_ops 100 1000 l os)) = 455 /\
-  energy_delta_ops 100 1000 l os = -45.
-Proof. vm_compute. repeat split; reflexivity. Qed.
+  let os := [OTransfer 1 2 300; OEnergyMove 1 3 100; OSuicide 2 3; OEnergySub 1 50; OEnergyAdd 9 5; OSuicide 3 3] in
+  let dom := [1; 2; 3; 9] in
+  NoDup dom /\ (forall o, In o os -> covers dom o) /\
+  sum_bal dom (l_acc l) = 1007 /\ sum_bal dom (l_acc (apply_ops 100 1000 l os)) = 700 /\
+  sum_eng 100 1000 dom (l_acc l) = 500 /\ sum_eng 100 1000 dom (l_acc (apply_ops 100 1000 l os)) = 355 /\
+  energy_delta_ops 100 1000 l os = -45 /\ burned 100 1000 l os = (307, 100).
+Proof.
+  cbv zeta. split; [repeat constructor; cbn; intuition discriminate|]. split.
+  - intros o Ho a Ha. cbn in Ho. repeat (destruct Ho as [<-|Ho]; [cbn in Ha; cbn; intuition (subst; auto)|]). contradiction.
+  - vm_compute. repeat split; reflexivity.
+Qed.
 
-Print Assumptions vet_conserved.
+(* a block with a transaction that reverts (tx_b: its 2nd clause fails), one that cannot start (tx_c: max fee below the base fee),
+   one whose 2nd clause self-destructs contract 7 to itself (tx_a: F5, 986 wei and 170 VTHO-wei destroyed), and a PoS staking
+   reward of 3000 split with the delegator contract 88: the oracle satisfies clause_ops_ok, and both sides of block_totals_exact
+   are evaluated *)
+Definition ex8_oracle (_ : env) (t : txn) (i : nat) (g : Z) (st : state Z) : cres Z Z :=
+  mkCres Z Z (g / 2) 0 (Nat.eqb i 1 && (t_gas t =? 99999))
+         (if Nat.eqb i 0 then [OTransfer 1 2 5; OEnergyMove 1 2 1000] else [OSuicide 7 7]) (snd st) 0.
+Definition ex8_wc (_ _ c w : Z) : Z := w.
+Definition ex8_env := mkEnv 100 1000 5 3 10000000 (Some 10000000000000) 1000000000000000 300000000000000000 77 10.
+Definition ex8_led : ledger :=
+  mkL (fun a => if a =? 1 then mkAcc 1000 90000000000000000000 50 else if a =? 7 then mkAcc 986 170 50 else empty_acc) 0 0 0.
+Definition ex8_ci := mkCI 0 0 false false.
+Definition tx_a := mkTx true 200000 [mkClause (Some 2) 0 0 5; mkClause (Some 7) 0 0 0] 0 20000000000000 500 1 true None true 0 0 0 false.
+Definition tx_b := mkTx true 99999 [mkClause (Some 2) 0 0 5; mkClause (Some 7) 0 0 0] 0 20000000000000 500 1 true None true 0 0 0 false.
+Definition tx_c := mkTx true 200000 [mkClause (Some 2) 0 0 5] 0 5 0 1 true None true 0 0 0 false.
+Definition dom8 := [1; 2; 7; 77; 88].
+
+Example ex8_clause_ops_ok : clause_ops_ok Z Z ex8_oracle dom8 /\ NoDup dom8.
+Proof.
+  split; [|repeat constructor; cbn; intuition discriminate].
+  intros e t i g st _ o Ho. cbn in Ho. destruct (Nat.eqb i 0).
+  - destruct Ho as [<-|[<-|[]]]; (split; [reflexivity|intros a Ha; cbn in Ha; cbn; intuition (subst; auto)]).
+  - destruct Ho as [<-|[]]. split; [reflexivity|intros a Ha; cbn in Ha; cbn; intuition (subst; auto)].
+Qed.
+
+Example ex8_block : exists st rcs,
+  let txs := [(tx_b, ex8_ci); (tx_c, ex8_ci); (tx_a, ex8_ci)] in
+  block_flow Z Z ex8_oracle ex8_wc ex8_env txs (ex8_led, 0) (Some (3000, 0, 0, true)) 88 = (243500, st, rcs) /\
+  map (fun rc => (r_gas_used Z rc, r_reverted Z rc, r_payer Z rc)) rcs = [(84250, true, 1); (159250, false, 1)] /\
+  flow_burned Z Z ex8_oracle ex8_wc ex8_env 0 txs (ex8_led, 0) = (986, 170) /\
+  sum_bal dom8 (l_acc ex8_led) = 1986 /\ sum_bal dom8 (l_acc (fst st)) = 1000 /\
+  sum_eng 100 1000 dom8 (l_acc ex8_led) = 90000000000000000170 /\
+  sum_eng 100 1000 dom8 (l_acc (fst st)) = 87565000000000003000 /\
+  sum_reward Z rcs = 121750000 /\ sum_paid Z rcs = 2435000000121750000 /\
+  view 100 1000 (fst st) 88 = (0, 2100) /\ view 100 1000 (fst st) 7 = (0, 0).
+Proof. eexists _, _. cbv zeta. split; [vm_compute; reflexivity|]. vm_compute. repeat split; reflexivity. Qed.
+
+Print Assumptions ledger_totals_exact.
+Print Assumptions vet_conserved_partial.
 Print Assumptions suicide_self_burns.
 Print Assumptions vet_conserved_refuted.
 Print Assumptions ledger_untouched.
 Print Assumptions vtho_delta.
-Print Assumptions vtho_delta_tx.
+Print Assumptions tx_totals_exact.
+Print Assumptions block_totals_exact.
+Print Assumptions flow_full_totals_exact.
 Print Assumptions vtho_delta_block.
-Print Assumptions vtho_delta_flow_full.
+Print Assumptions vtho_delta_tx.
 Print Assumptions energy_delta_any_set.
+Print Assumptions payer_and_price.
 Print Assumptions price_ge_basefee.
-Print Assumptions basefee_direction.
 Print Assumptions basefee_bounds.
+Print Assumptions basefee_direction.
 Print Assumptions basefee_first_galactica_block.
 Print Assumptions basefee_none_before_fork.
+Print Assumptions basefee_chain_ge_floor.
 Print Assumptions basefee_wrap_example.
